@@ -421,6 +421,7 @@ func addStringIntrinsics(m map[string]intrinsicFn) {
 		r.declareOnce(okF, "(declare-fun "+okF+" (String) Bool)")
 		r.declareOnce(valF, "(declare-fun "+valF+" (String) Int)")
 		r.declareOnce(okF+"_rng", "(declare-fun "+okF+"_rng (String) Bool)")
+		r.parseApps = append(r.parseApps, parseApp{str: st, okF: okF, valF: valF})
 		if r.branch(boolSym("(" + okF + " " + st + ")")) {
 			v := "(" + valF + " " + st + ")"
 			r.assertPC("(not (= " + st + " \"\"))")
